@@ -128,6 +128,7 @@ package validate
 //@   ensures[exact] err == nil <==> quoteOK(quote) && policyOK(quote, options)
 
 //@ func TdxQuote(quote, options) (err)
+//@   records validate_tdxquote
 //@   ensures[nil-options] options == nil ==> err != nil
 //@   ensures[type] !typeis(quote, "*tdx.QuoteV4") ==> err != nil
 //@   ensures[exact] options != nil && typeis(quote, "*tdx.QuoteV4") ==>
